@@ -239,6 +239,17 @@ func (e *c15Env) buildChain(mws []string, leaf string, underOutbox bool) partsto
 		e.Encs = append(e.Encs, mw)
 		e.EncInner = append(e.EncInner, inner)
 		return mw
+	case "EC32":
+		// 3 data + 2 parity shards (the default "EC" is 2+1): stripes that end inside the first
+		// of several data shards exist only with more than two data shards
+		shards := make([]partstore.PartStore, 5)
+		for i := range shards {
+			shards[i] = e.buildChain(rest, leaf, underOutbox)
+		}
+		ec := c15Must(erasurecoding.NewWithPartStores(3, 2, e.ECStripe, shards, erasurecoding.WithHealScanInterval(0)))
+		e.ECs = append(e.ECs, ec)
+		e.ECShards = append(e.ECShards, shards)
+		return ec
 	case "EC":
 		total := e.ECData + e.ECParity
 		shards := make([]partstore.PartStore, total)
